@@ -24,6 +24,7 @@ import (
 	"math/rand"
 	"os"
 	"strconv"
+	"strings"
 	"sync"
 )
 
@@ -48,6 +49,24 @@ func main() {
 	if mode == "stress" {
 		stress(rng, emit)
 		return
+	}
+	// 0. model traces from the exhaustive exploration (driver gen), forced one by one
+	for _, a := range os.Args[4:] {
+		if strings.HasPrefix(a, "dir=") {
+			f, err := os.Open(a[4:])
+			if err != nil {
+				fmt.Fprintln(os.Stderr, err)
+				os.Exit(2)
+			}
+			sc := bufio.NewScanner(f)
+			sc.Buffer(make([]byte, 1<<20), 1<<20)
+			for sc.Scan() && !tooAbnormal() {
+				if ln := sc.Text(); ln != "" {
+					emit(runDirected(ln))
+				}
+			}
+			f.Close()
+		}
 	}
 
 	// 1. bounded enumeration: every combination of choices inside sliding windows of decisions
@@ -83,7 +102,9 @@ func main() {
 		}
 		wholeNode(rounds, emit)
 	}
-	if len(os.Args) > 4 && os.Args[4] == "stress" {
-		stress(rng, emit)
+	for _, a := range os.Args[4:] {
+		if a == "stress" {
+			stress(rng, emit)
+		}
 	}
 }
